@@ -107,6 +107,9 @@ def worker_main(spec):
             agg["harness_errors"].append(dict(i=i, err=repr(e)[:300], tb=traceback.format_exc()[-1500:]))
             continue
         account(res, i)
+        if agg["runs"] % 50 == 0:
+            import gc
+            gc.collect()
         en = group.get("enumerate")
         if en and not res["viol"] and res.get("verdict") in ("returned", "ok"):
             # single-fault enumeration along the recorded schedule (same seed => identical prefix up to the fault)
